@@ -147,6 +147,13 @@ impl<'a> Analysis<'a> {
                     parked: false,
                 });
                 open.insert(e.tid, cmds.len() - 1);
+            } else if e.kind == fv::P_PARKED && e.b == 1 {
+                // parked behind pending commands without trying the ring
+                if let Some(ci) = open.remove(&e.tid) {
+                    cmds[ci].parked = true;
+                    parked_count += 1;
+                    parked_q.entry(e.tid).or_default().push(ci);
+                }
             } else if e.kind == fv::P_SUBMIT_ITEM {
                 if let Some(&ci) = open.get(&e.tid) {
                     cmds[ci].collects.push(e.b);
@@ -285,6 +292,14 @@ impl<'a> Analysis<'a> {
         }
         // match issued commands with consumed ones, per ring: sent commands (start, submit) that
         // entered the ring keep their order; forced ones (commit, drop) are matched by content
+        // the k-th successful push into a ring is the k-th command consumed from it (the ring is
+        // FIFO), whatever order parked commands were replayed in
+        let mut pushes: HashMap<usize, Vec<usize>> = HashMap::new();
+        for (i, e) in log.iter().enumerate() {
+            if e.kind == fv::P_PUSH_OUTCOME && e.b == 0 {
+                pushes.entry(e.tid as usize).or_default().push(i);
+            }
+        }
         {
             let mut used: HashMap<usize, Vec<bool>> = HashMap::new();
             for (r, l) in consumed.iter() {
@@ -306,6 +321,10 @@ impl<'a> Analysis<'a> {
                     u[k] = true;
                     cmds[ci].cycle = Some(list[k].2);
                     cmds[ci].consumed_at = Some(list[k].3);
+                    let tid = cmds[ci].tid;
+                    if let Some(p) = pushes.get(&tid).and_then(|v| v.get(k)) {
+                        cmds[ci].entered = Some(*p);
+                    }
                 }
             }
         }
@@ -477,10 +496,16 @@ impl<'a> Analysis<'a> {
     /// happens-before y such that the collector consumed y in an earlier cycle than x?
     /// Pairs considered: start -> anything, submit/drop -> commit (of ops ordered by HB).
     pub fn cut_inverted(&self, c: usize) -> bool {
+        self.inversion(c).0
+    }
+
+    /// (cross-ring inversion = finding D2, same-ring inversion = commands of one thread reordered)
+    pub fn inversion(&self, c: usize) -> (bool, bool) {
         let id = match self.collect_ids.get(&c) {
             Some(id) => *id,
-            None => return false,
+            None => return (false, false),
         };
+        let (mut cross, mut same) = (false, false);
         let rel: Vec<&CmdFate> = self.cmds.iter().filter(|x| x.collects.contains(&id) && !x.lost).collect();
         for x in &rel {
             for y in &rel {
@@ -505,14 +530,21 @@ impl<'a> Analysis<'a> {
                 if !matters {
                     continue;
                 }
-                match (x.cycle, y.cycle) {
-                    (Some(cx), Some(cy)) if cx > cy => return true,
-                    (None, Some(_)) if !x.lost => return true, // x never consumed, y was
-                    _ => {}
+                let inv = match (x.cycle, y.cycle) {
+                    (Some(cx), Some(cy)) => cx > cy || (cx == cy && x.tid == y.tid && x.consumed_at > y.consumed_at),
+                    (None, Some(_)) => !x.lost, // x never consumed, y was
+                    _ => false,
+                };
+                if inv {
+                    if x.tid == y.tid {
+                        same = true;
+                    } else {
+                        cross = true;
+                    }
                 }
             }
         }
-        false
+        (cross, same)
     }
 
     pub fn op_executed(&self, o: usize) -> bool {
